@@ -207,9 +207,14 @@ class Reader(object):
             raw.append((int(i.get('offset')), i.get('semantic'), i.get('source'), i.get('set')))
         stride = max(r[0] for r in raw) + 1
         inputs = []
+        # COLLADA: the inputs of <vertices> belong to every primitive that uses it through VERTEX; a primitive that lists such a binding
+        # itself as well (same offset, semantic, source and set) lists the same input, not another one
+        explicit = set((off, sem, src, st) for off, sem, src, st in raw)
         for off, sem, src, st in raw:
             if sem == 'VERTEX' and src[1:] in vertices:
                 for vsem, vsrc in vertices[src[1:]]:
+                    if vsem != 'POSITION' and (off, vsem, '#' + vsrc, st) in explicit:
+                        continue
                     inputs.append([off, 'VERTEX' if vsem == 'POSITION' else vsem, '#' + vsrc, st, vsrc])
             else:
                 inputs.append([off, sem, src, st, src[1:]])
@@ -441,9 +446,12 @@ def raw_order(inputs, raw, vertices):
     """texcoord sets are exposed in the order the inputs are listed in the file (after <vertices> expansion at the end)"""
     out = []
     late = []
+    explicit = set((off, sem, src, st) for off, sem, src, st in raw)
     for off, sem, src, st in raw:
         if sem == 'VERTEX' and src[1:] in vertices:
             for vsem, vsrc in vertices[src[1:]]:
+                if vsem != 'POSITION' and (off, vsem, '#' + vsrc, st) in explicit:
+                    continue
                 late.append([off, 'VERTEX' if vsem == 'POSITION' else vsem, '#' + vsrc, st, vsrc])
         else:
             out.append([off, sem, src, st, src[1:]])
